@@ -46,7 +46,8 @@ class NormFourierDomainExpression(NormFourierDomain, Expr):
     def inverse_fourier(self, evaluate=True, **assumptions):
         """Attempt inverse Fourier transform."""
 
-        expr = self.subs(2 * pi * fsym * dt)
+        # F = f * dt
+        expr = self.subs(fsym * dt)
         result = inverse_fourier_transform(
             expr.sympy, fsym, tsym, evaluate=evaluate)
 
